@@ -226,7 +226,8 @@ static void run_case(uint64_t idx, vr::Ctx& ctx)
         ctx.poll_reports();
     };
     ex::Stats st;
-    ex::explore(sc, c.bound, st, 3000000, [&](const ex::Execution&) {}, c.shard, c.nshards);
+    auto stopCheck = [&](const ex::Execution&) { if (ctx.case_violations >= 3) st.stop = true; };
+    ex::explore(sc, c.bound, st, 3000000, stopCheck, c.shard, c.nshards);
     ctx.count("executions", st.executions);
     ctx.count("transitions", st.transitions);
     ctx.maxc("max_points_per_execution", st.maxPoints);
